@@ -405,6 +405,8 @@ outer:
 							ci: md.CaptureInfo,
 							p:  newPacket,
 						}
+						// go on with the reassembled datagram, not with its last fragment
+						parsed = newPacket
 					}
 				case layers.LayerTypeIPv6:
 					// TODO: implement ipv6 reassembly (if needed, unsure)
